@@ -36,8 +36,9 @@ class ModelRun:
 class Recording:
     """A recorder invocation: binary name (as built), argument list (outdir, seed, tier appended by the engine)."""
 
-    def __init__(self, binary, args=(), label=None, timeout=600, env=None):
+    def __init__(self, binary, args=(), label=None, timeout=600, env=None, trace=None):
         self.binary, self.args, self.label, self.timeout, self.env = binary, list(args), label or binary, timeout, env
+        self.trace = trace      # (trace module, cfg) when it differs from the check's
 
 
 class Check:
@@ -131,8 +132,12 @@ def run_check(check, tier, seed, replay=None):
         log("  recorded %d trace files (%.0fs)" % (len(traces), time.time() - t0))
 
         # 3. validate
-        vres = validate_traces(check.trace_module, check.trace_cfg, traces,
-                               timeout=1500 if tier == "thorough" else 900) if traces else []
+        vres = []
+        groups = {}
+        for tp in traces:
+            groups.setdefault(trace_origin[tp].trace or (check.trace_module, check.trace_cfg), []).append(tp)
+        for (tmod, tcfg), tps in groups.items():
+            vres += validate_traces(tmod, tcfg, tps, timeout=1500 if tier == "thorough" else 900)
         log("  validated traces (%.0fs)" % (time.time() - t0))
 
         # 4. collect the model results
